@@ -282,7 +282,8 @@ func C15(e *core.Env) int {
 			}
 			formsKey = append(formsKey, c.fileForm+"/"+c.pkgForm+"/"+fmt.Sprint(c.existing != "")+"/"+fmt.Sprint(c.vars))
 			sb := srcs[c.pkgDir]
-			fmt.Fprintf(sb, "type In%s struct{ V int }\ntype Out%s struct{ V int }\n\n", c.name, c.name)
+			// the nested named struct makes goverter emit a helper next to the converter
+			fmt.Fprintf(sb, "type In%[1]s struct{ V int; N NestIn%[1]s }\ntype NestIn%[1]s struct{ X int }\ntype Out%[1]s struct{ V int; N NestOut%[1]s }\ntype NestOut%[1]s struct{ X int }\n\n", c.name)
 			if c.vars {
 				sb.WriteString("// goverter:variables\n")
 				for _, l := range c.lines {
@@ -456,6 +457,7 @@ func C15(e *core.Env) int {
 			rep.Count("layouts_compared", 1)
 		}
 	}
+	c15Bootstrap(e, rep, bin, root)
 	// the merged / relocated files must build together with the user's packages
 	cmd := exec.Command("go", "build", "./...")
 	cmd.Dir = root
@@ -524,4 +526,55 @@ func declFile(scen, pkgDir string) string {
 		h = -h
 	}
 	return names[h%len(names)]
+}
+
+// c15Bootstrap: the output directory already holds a hand-written file of a package whose name differs from the
+// directory and which refers to the not-yet-generated implementation (so that package does not type-check yet). The
+// pattern names the input package only. The generated file must join the existing package, on the first run and on
+// the second (when the package has become healthy).
+func c15Bootstrap(e *core.Env, rep *core.Report, bin, root string) {
+	type bs struct {
+		name, outDir, pkgName string
+		vars                  bool
+	}
+	list := []bs{{"boot0", "out", "conv", false}, {"boot1", "gen-v2", "mapping", false}, {"boot2", "internal/impl", "convimpl", false}, {"boot3", "out", "conv", true}}
+	for _, b := range list {
+		dir := filepath.Join(root, b.name)
+		input := "package pkg\n\n// goverter:converter\n// goverter:output:file ./" + b.outDir + "/gen.go\ntype Converter interface {\n\tConvert(source In) Out\n}\n\ntype In struct{ ID int; N Nest }\ntype Nest struct{ X int }\ntype Out struct{ ID int; N NestOut }\ntype NestOut struct{ X int }\n"
+		companion := "package " + b.pkgName + "\n\nimport \"vcase/" + b.name + "/pkg\"\n\n// Default uses the generated implementation.\nvar Default pkg.Converter = &ConverterImpl{}\n"
+		if b.vars {
+			input = "package pkg\n\n// goverter:variables\n// goverter:output:file ./" + b.outDir + "/gen.go\nvar (\n\tConvert func(source In) Out\n)\n\ntype In struct{ ID int; N Nest }\ntype Nest struct{ X int }\ntype Out struct{ ID int; N NestOut }\ntype NestOut struct{ X int }\n"
+			companion = "package " + b.pkgName + "\n\n// Helper is hand-written and refers to a generated helper.\nvar Helper = pkgNestToPkgNestOut\n"
+		}
+		writeFiles(dir, map[string]string{"pkg/input.go": input, "pkg/" + b.outDir + "/default.go": companion})
+		for run := 1; run <= 2; run++ {
+			rep.Evaluations++
+			gr := runGen(e, bin, dir, dir, []string{"gen", "./pkg"}, nil)
+			if gr.Exit != 0 {
+				rep.Violation(&core.Viol{Kind: "bootstrap", Case: b.name, Summary: fmt.Sprintf("run %d with a not yet compiling companion file in the output package failed: %s", run, core.Classify(gr.Stderr)), Detail: gr.Stderr, Dir: dir})
+				break
+			}
+			got, _ := os.ReadFile(filepath.Join(dir, "pkg", b.outDir, "gen.go"))
+			clause := ""
+			for _, l := range strings.Split(string(got), "\n") {
+				if strings.HasPrefix(l, "package ") {
+					clause = strings.TrimPrefix(l, "package ")
+					break
+				}
+			}
+			if clause != b.pkgName {
+				rep.Violation(&core.Viol{Kind: "package_clause", Case: b.name, Summary: fmt.Sprintf("run %d: generated file has package %q, the existing package at that location is %q", run, clause, b.pkgName), Detail: string(got), Dir: dir})
+				break
+			}
+			rep.NonTrivial(fmt.Sprintf("bootstrap|%s|vars=%v|run%d", b.outDir, b.vars, run))
+			if run == 2 {
+				cmd := exec.Command("go", "build", "./...")
+				cmd.Dir = dir
+				cmd.Env = e.GoEnv()
+				if out, err := cmd.CombinedOutput(); err != nil {
+					rep.Violation(&core.Viol{Kind: "build", Case: b.name, Summary: "module does not build after bootstrapping the output package: " + compileClass(string(out)), Detail: string(out), Dir: dir})
+				}
+			}
+		}
+	}
 }
